@@ -457,7 +457,22 @@ def check_world_discipline(name, S, arg, tab, out, case):
                 sa, _ = _node_steps(tab, b, n)
                 access.setdefault((int(n['world1']), int(n['world2'])), sa if sa is not None else 0)
         for idx, n in enumerate(b):
-            if idx < trunk_len or n.get('sentence') is None or n.get('world') is None:
+            if idx < trunk_len or n.get('sentence') is None:
+                continue
+            if n.get('world') is None:
+                # a sentence node without a world in a modal proof: added by a step whose target had one?
+                sa0, _ = _node_steps(tab, b, n)
+                if sa0 is not None and 1 <= sa0 <= len(tab.history):
+                    e0 = tab.history[sa0 - 1]
+                    tn0 = e0.target.get('node')
+                    if tn0 is not None and tn0.get('world') is not None:
+                        out.violation('insitu-world-discipline',
+                                      dict(case, rule=e0.rule.name, step=sa0, branch=bi, target=tabs.show_spec(tabs.node_spec(tn0)),
+                                           added=tabs.show_spec(tabs.node_spec(n))),
+                                      dict(diag='expansion-lost-its-world', rule=e0.rule.name, family=S.base_name),
+                                      f'{name}: {gen.show_arg(arg)}: step {sa0} ({e0.rule.name}) on {tabs.show_spec(tabs.node_spec(tn0))} added '
+                                      f'the world-less node {tabs.show_spec(tabs.node_spec(n))}', size=gen.arg_size(arg))
+                        return
                 continue
             if (id(n), bi) in seen:
                 continue
